@@ -569,8 +569,10 @@ func (prop) ExtraPhase(tier string, seed uint64, deadline time.Time) (*driver.Ex
 	detChecks := 0
 	runs := 0
 	var sample any
-	// however loaded the machine is, a minimum is always run: 3 programs, 30 schedules each
-	for pi := 0; pi < nprog && (pi < 3 || time.Now().Before(deadline)); pi++ {
+	// however loaded the machine is, a minimum is always run: 8 programs, 25 schedules each
+	// (the regression matrix showed three compiler-side seeded changes slipping
+	// through when a loaded machine cut the phase down to three programs)
+	for pi := 0; pi < nprog && (pi < 8 || time.Now().Before(deadline)); pi++ {
 		ch := sim.NewChoices(sim.RunSeed(seed^0xb1a7e5, uint64(pi)))
 		var sc *Scenario
 		if pi%4 == 3 {
@@ -585,7 +587,7 @@ func (prop) ExtraPhase(tier string, seed uint64, deadline time.Time) (*driver.Ex
 		if err != nil {
 			return nil, fmt.Errorf("layer B program %d: %v", pi, err)
 		}
-		for k := 0; k < nsched && (k < 30 || time.Now().Before(deadline)); k++ {
+		for k := 0; k < nsched && (k < 25 || time.Now().Before(deadline)); k++ {
 			ss := sim.RunSeed(seed^0x5c4ed, uint64(pi*100000+k))
 			sp := []int{0, 0, 30, 200}[k%4]
 			r := runSchedule(bin, ss, sp)
